@@ -32,6 +32,9 @@ def do_raise(kind, msg, ns):
         chained(msg)
     if kind == 7:
         ns["boom"](msg)
+    if kind == 9:
+        from harness.tracegen import mlstring
+        mlstring.ml_inner(msg)
     raise Weird(msg)
 def listener_fail():
     raise RuntimeError("listener failed")
